@@ -331,7 +331,7 @@ func (m *c08Model) add(addr netip.Addr, names []string) {
 
 func c08Letter() byte {
 	c := verifrt.Byte()
-	verifrt.Assume(c >= 'a' && c <= 'c' || c >= 'A' && c <= 'C')
+	verifrt.Assume(c >= 'a' && c <= 'z' || c >= 'A' && c <= 'Z')
 
 	return c
 }
